@@ -235,3 +235,235 @@ func verifRunModes(text string) {
 func VerifModesTop(k int)     { verifRunModes(verifFragText(k, len(verifFrags), 0)) }
 func VerifModesCore(k int)    { verifRunModes(verifFragText(k, verifCoreN, 0)) }
 func VerifModesCtxCore(k int) { verifRunModes(verifFragText(k, verifCoreN, len(verifContexts)-1)) }
+
+// ---- corpus-based jobs: the repository's own example programs under symbolic edits ----
+
+// verifCorpusPick chooses one of the selected example programs (concretised: one family of
+// paths per program).
+func verifCorpusPick() (string, string) {
+	n := verifapi.CorpusCount()
+	hi := verifapi.Concrete(verifapi.Int("corpus_hi", 0, (n-1)/200))
+	lo := verifapi.Concrete(verifapi.Int("corpus_lo", 0, 199))
+	i := hi*200 + lo
+	verifapi.Assume(i < n)
+	return verifapi.CorpusSource(i), verifapi.CorpusName(i)
+}
+
+func verifLinesOf(src string) []string {
+	ls := strings.Split(src, "\n")
+	if len(ls) > 0 && ls[len(ls)-1] == "" {
+		ls = ls[:len(ls)-1]
+	}
+	return ls
+}
+
+// verifShiftRows: drop the lines reported for rows [at, at+delta) and move later rows back.
+func verifShiftRows(out string, at, delta int) string {
+	if out == "" {
+		return ""
+	}
+	res := ""
+	for _, l := range strings.Split(strings.TrimSuffix(out, "\n"), "\n") {
+		parts := strings.SplitN(l, ":::", 3)
+		if len(parts) < 3 {
+			res += l + "\n"
+			continue
+		}
+		row, ok := 0, len(parts[1]) > 0
+		for _, c := range parts[1] {
+			if c < '0' || c > '9' {
+				ok = false
+				break
+			}
+			row = row*10 + int(c-'0')
+		}
+		if !ok {
+			res += l + "\n"
+			continue
+		}
+		if row >= at && row < at+delta {
+			continue
+		}
+		if row >= at+delta {
+			row -= delta
+		}
+		res += parts[0] + ":::" + verifRowText(row) + ":::" + parts[2] + "\n"
+	}
+	return res
+}
+
+func verifRunText(src string, flags *cmd.ExecuteFlags, row int) string {
+	verifapi.CatchExit(func() { verifRunProgram(src, "./a.rb", flags, row) })
+	return verifapi.TakeStdout()
+}
+
+// VerifCorpusLayout (C06): an example program and the same program with a blank line or a
+// comment-only line inserted before a solver-chosen row; the outputs must agree up to the
+// row shift.
+func VerifCorpusLayout(n int) {
+	src, name := verifCorpusPick()
+	lines := verifLinesOf(src)
+	at := verifapi.Concrete(verifapi.Int("row", 1, len(lines)+1))
+	edit := verifapi.Concrete(verifapi.Int("edit", 0, 1))
+	ins := []string{"", "# note"}[edit]
+	b := ""
+	for i, l := range lines {
+		if i+1 == at {
+			b += ins + "\n"
+		}
+		b += l + "\n"
+	}
+	if at == len(lines)+1 {
+		b += ins + "\n"
+	}
+	a := strings.Join(lines, "\n") + "\n"
+	verifapi.Witness("srcA", a)
+	verifapi.Witness("srcB", b)
+	verifapi.Witness("program", name)
+	verifapi.Witness("C06-corpus.at", verifRowText(at))
+	verifapi.Witness("C06-corpus.delta", "1")
+	mark := verifapi.Snapshot()
+	outA := verifRunText(a, cmd.NewExecuteFlags(), 0)
+	verifapi.Restore(mark)
+	outB := verifRunText(b, cmd.NewExecuteFlags(), 0)
+	verifapi.Reach("ran")
+	verifapi.Classify("C06/example-program-output-changed-by-inserted-" + []string{"blank-line", "comment-line"}[edit] + "/" + name)
+	verifapi.Assert(verifShiftRows(outB, at, 1) == outA, "C06-corpus")
+}
+
+func verifFirstWord(s string) string {
+	i := 0
+	for i < len(s) && ((s[i] >= 'a' && s[i] <= 'z') || (s[i] >= 'A' && s[i] <= 'Z') || s[i] == '_' || (s[i] >= '0' && s[i] <= '9')) {
+		i++
+	}
+	return s[:i]
+}
+
+func verifIn(w string, set ...string) bool {
+	for _, x := range set {
+		if w == x {
+			return true
+		}
+	}
+	return false
+}
+
+func verifIndented(s string) bool { return len(s) > 0 && (s[0] == ' ' || s[0] == '\t') }
+
+// verifTopBoundaries: rows r (1-based) such that the text before row r and the text from row r
+// on are both sequences of complete top-level statements: row r and the previous non-blank
+// row are unindented, row r does not continue or close anything, and the previous row is
+// `end` or a complete one-line statement. Programs with heredocs or =begin blocks give none.
+func verifTopBoundaries(lines []string) []int {
+	for _, l := range lines {
+		if strings.Contains(l, "<<") || strings.HasPrefix(l, "=begin") {
+			return nil
+		}
+	}
+	var res []int
+	prev := ""
+	for i, s := range lines {
+		t := strings.TrimSpace(s)
+		if t == "" || strings.HasPrefix(t, "#") {
+			continue
+		}
+		if i > 0 && prev != "" && !verifIndented(s) && !verifIndented(prev) {
+			w := verifFirstWord(s)
+			closer := verifIn(w, "end", "else", "elsif", "when", "rescue", "ensure", "in", "then", "do", "and", "or") || strings.ContainsAny(s[:1], "}]).&|")
+			pt := strings.TrimRight(prev, " \t")
+			pw := verifFirstWord(prev)
+			opener := verifIn(pw, "class", "module", "def", "if", "unless", "while", "until", "case", "begin", "for")
+			cont := strings.ContainsAny(pt[len(pt)-1:], "{[(,\\.+-*/=&|<>") || strings.HasSuffix(pt, " do") || strings.HasSuffix(pt, " and") || strings.HasSuffix(pt, " or") || strings.HasSuffix(pt, " then") ||
+				(strings.HasSuffix(pt, "|") && strings.Contains(pt, " do |")) || pt == "do"
+			if !closer && (pt == "end" || !(opener || cont)) {
+				res = append(res, i+1)
+			}
+		}
+		prev = s
+	}
+	return res
+}
+
+// VerifCorpusPreload (C18): an example program split at a solver-chosen top-level boundary
+// into a preload file and a target; the target's output must equal the whole program's
+// output restricted to the target's rows (rebased), and must not name the preload file.
+func VerifCorpusPreload(n int) {
+	src, name := verifCorpusPick()
+	lines := verifLinesOf(src)
+	bs := verifTopBoundaries(lines)
+	verifapi.Assume(len(bs) > 0)
+	b := bs[verifapi.Concrete(verifapi.Int("boundary", 0, len(bs)-1))]
+	pre := strings.Join(lines[:b-1], "\n") + "\n"
+	target := strings.Join(lines[b-1:], "\n") + "\n"
+	whole := pre + target
+	verifapi.Witness("whole", whole)
+	verifapi.Witness("target", target)
+	verifapi.Witness("pre0", pre)
+	verifapi.Witness("program", name)
+	verifapi.Witness("C18.prelines", verifRowText(b-1))
+	mark := verifapi.Snapshot()
+	outWhole := verifRunText(whole, cmd.NewExecuteFlags(), 0)
+	verifapi.Restore(mark)
+	verifapi.SetFile(".ti-loader.json", "{\"preload\": [\"p0.rb\"]}")
+	verifapi.SetFile("p0.rb", pre)
+	outSplit := verifRunText(target, cmd.NewExecuteFlags(), 0)
+	verifapi.Reach("ran")
+	verifapi.Classify("C18/example-program-output-names-the-preload-file/" + name)
+	verifapi.Assert(!strings.Contains(outSplit, "p0.rb"), "C18-hidden")
+	verifapi.Classify("C18/example-program-split-output-differs-from-concatenation/" + name)
+	verifapi.Assert(outSplit == verifShiftRows(outWhole, 1, b-1), "C18-prefix")
+}
+
+var verifCorpusFragments = []struct{ name, text string }{
+	{"conditional", "zqa = nil\nif zqa.nil?\nzqa\nend\n"},
+	{"array-and-block", "zqb = [1, \"s\"]\nzqb.each do |zqe|\nzqe\nend\n"},
+	{"builtin-call-on-union", "zqc = true ? 1 : \"s\"\nzqd = zqc * 2\n"},
+	{"hash-and-index", "zqh = {k: 1}\nzqv = zqh[:k]\n"},
+}
+
+// VerifCorpusInterfere (C11): an independent fragment (no user-defined names shared, no class
+// or method defined) inserted at a solver-chosen top-level boundary of an example program; the
+// program's own output lines must be unchanged up to the row shift.
+func VerifCorpusInterfere(n int) {
+	src, name := verifCorpusPick()
+	lines := verifLinesOf(src)
+	bs := verifTopBoundaries(lines)
+	verifapi.Assume(len(bs) > 0)
+	at := bs[verifapi.Concrete(verifapi.Int("boundary", 0, len(bs)-1))]
+	f := verifCorpusFragments[verifapi.Concrete(verifapi.Int("fragment", 0, len(verifCorpusFragments)-1))]
+	a := strings.Join(lines, "\n") + "\n"
+	b := strings.Join(lines[:at-1], "\n") + "\n" + f.text + strings.Join(lines[at-1:], "\n") + "\n"
+	delta := strings.Count(f.text, "\n")
+	verifapi.Witness("srcA", a)
+	verifapi.Witness("srcB", b)
+	verifapi.Witness("program", name)
+	verifapi.Witness("C11-corpus.at", verifRowText(at))
+	verifapi.Witness("C11-corpus.delta", verifRowText(delta))
+	mark := verifapi.Snapshot()
+	outA := verifRunText(a, cmd.NewExecuteFlags(), 0)
+	verifapi.Restore(mark)
+	outB := verifRunText(b, cmd.NewExecuteFlags(), 0)
+	verifapi.Reach("ran")
+	verifapi.Classify("C11/example-program-output-changed-by-independent-fragment/" + f.name + "/" + name)
+	verifapi.Assert(verifShiftRows(outB, at, delta) == outA, "C11-corpus")
+}
+
+// VerifCorpusModes (C04): --suggest / --hover / --define on an example program with the
+// requested row a solver variable over [0, lines+2].
+func VerifCorpusModes(n int) {
+	src, _ := verifCorpusPick()
+	verifRunModes(src)
+}
+
+// VerifCorpusPrefix (C01 / C02): every line-prefix of an example program, with and without
+// the final newline, with and without -i: no crash, no hang, only diagnostic / hint lines.
+func VerifCorpusPrefix(n int) {
+	src, _ := verifCorpusPick()
+	lines := verifLinesOf(src)
+	k := verifapi.Concrete(verifapi.Int("lines", 1, len(lines)))
+	text := strings.Join(lines[:k], "\n")
+	if verifapi.Concrete(verifapi.Int("nl", 0, 1)) == 1 {
+		text += "\n"
+	}
+	verifRunFrags(text)
+}
